@@ -2,7 +2,7 @@
 import os, json
 
 # events whose acceptance does not depend on earlier events (replay slice = the event alone)
-STATELESS_OPS = {'codec', 'decode', 'hexfmt', 'hexparse', 'ancpair', 'children', 'parentcomp', 'childcomp', 'uncompact',
+STATELESS_OPS = {'codec', 'decode', 'hexfmt', 'hexparse', 'canonout', 'ancpair', 'children', 'parentcomp', 'childcomp', 'uncompact',
                  'compact', 'anchors', 'relconfig', 'quintmap', 'call', 'lookup', 'boundary'}
 
 
